@@ -73,6 +73,8 @@ type RunSpec struct {
 	Window string
 	// PlainAt: the CA's reply carries a plain public key (its own key line) as PlainAt-th entry (0 = none)
 	PlainAt int `json:",omitempty"`
+	// Login: the login name of the run ("" = alice; alice-admin and root are registered with the same key)
+	Login string `json:",omitempty"`
 	// Reuse: run with the real handler object (and forwarded connection) built by the latest earlier run
 	// of the real handler, whose configuration (validity, key slots) then applies.
 	Reuse bool
@@ -113,6 +115,7 @@ func gen(t *rapid.T) Case {
 		if rapid.IntRange(0, 30).Draw(t, l+"ManyCerts") == 14 {
 			r.NCerts = rapid.SampledFrom([]int{8, 16, 20}).Draw(t, l+"NCertsMany") // nothing bounds the number of certificates in a reply
 		}
+		r.Login = rapid.SampledFrom([]string{"", "", "", "alice-admin", "root"}).Draw(t, l+"Login")
 		r.KeyLabel = rapid.SampledFrom([]string{"", "", "", "regular", "prod-east", "paranoids.regular", "my label", "x", "paranoids"}).Draw(t, l+"KeyLabel")
 		if r.Validity == 0 {
 			r.Validity = rapid.Uint64Range(1, 315360000).Draw(t, l+"ValidityAny")
@@ -201,6 +204,9 @@ func exec(c Case) (vh.Outcome, error) {
 	}
 	defer os.RemoveAll(dir)
 	os.WriteFile(filepath.Join(dir, "alice.pub"), vh.AuthorizedLine("p256b", "alice"), 0o644)
+	// the same person's other accounts (same registered key): runs for different login names share the agent
+	os.WriteFile(filepath.Join(dir, "alice-admin.pub"), vh.AuthorizedLine("p256b", "alice-admin"), 0o644)
+	os.WriteFile(filepath.Join(dir, "root.pub"), vh.AuthorizedLine("p256b", "root"), 0o644)
 	_ = p.Ring().Add(agent.AddedKey{PrivateKey: vh.Key("p256b"), Comment: "long-term key"})
 	// pre-existing identities
 	for i, pre := range c.Pre {
@@ -291,7 +297,11 @@ func exec(c Case) (vh.Outcome, error) {
 				lastReal, lastValidity, lastConn = rh, r.Validity, conn
 			}
 		}
-		param, _ := vh.BuildParam(vh.ParamSpec{LogName: "alice", Policy: "NONS", ReqUser: "alice", ReqHost: "laptop", ClientIP: "172.17.0.1", TransID: fmt.Sprintf("%010x", ri)})
+		login := r.Login
+		if login == "" {
+			login = "alice"
+		}
+		param, _ := vh.BuildParam(vh.ParamSpec{LogName: login, Policy: "NONS", ReqUser: "alice", ReqHost: "laptop", ClientIP: "172.17.0.1", TransID: fmt.Sprintf("%010x", ri)})
 		before := ringEntries(p)
 		addsBefore := len(p.Adds())
 		framesBefore := p.NumFrames()
@@ -475,7 +485,7 @@ func equal(a, b []string) bool {
 	return true
 }
 
-const rule = "histories against one recording keyring agent (which lists its identities in insertion order, newest first, or sorted by comment: the protocol promises no order): 0..5 pre-existing identities (plain RSA / ECDSA / Ed25519 keys and foreign certificates whose comments are near-misses of the handler label: other case, truncation, '-' for '.', missing first letter, 'private-key', empty, non-ASCII; comments containing the exact handler name are not generated; two thirds of the foreign certificates carry a key identifier in the RA's own format - the regular handler's attribute combination for the same or another user, or hardware / firefighter / nonce / SSH-only ones -, as another deployment would issue), then 1..6 runs - of the real handler (a third of the later ones through the handler object and forwarded connection an earlier run built, class handler-object-reused), or (a quarter) of a harness handler whose one agent key (the repository's AgentKey) carries 2..3 signing requests, with the key-pair algorithm (default, RSA-2048, rarely RSA-4096, P-256 / 384 / 521, Ed25519) and the private-key label drawn - each succeeding or failing {agent refuses the challenge / handler rejects, no key slot configured, CA error - for several requests: on the last one, after the earlier ones were signed -, the agent refusing to remove an identity of the previous generation, the agent refusing one certificate insertion, a CA that answers 300 ms after the caller's context ended (late success, or a failure after which the agent is looked at 700 ms later)}, the CA returning 1..3 (one run in 30: 8 / 16 / 20) certificates (validity window as requested, or without expiry, or valid until 2^63 s, or stamped by a CA clock 90 s ahead, or the first certificate of a reply valid for 5 minutes only; a sixth of the replies also carry a plain public key - the CA's own key line - in front of, between or behind the certificates) with 0..n+1 comments (present / empty / containing the handler name), validity from {1, 2, 3599, 3600, 43200, 2^31, 315360000} or random in 1 s..10 y, the handler's 'key_label' option left out or set (the default, another text, the handler name, a text with a space). Oracle after a successful run: the new private key and every returned certificate are listed, signing with each certificate yields a signature verifying under its key, every AddedKey the agent received has 0 < lifetime and lifetime >= validity (the configured one, and - when the CA stamps exactly the requested window - the remaining validity of the certificate it carries), the run allocated no more than 64 MiB + 1 MiB per returned certificate, certificates of the earlier generation are absent, the certificate set is exactly foreign + this generation, every pre-existing identity is present with identical blob and comment; after a failing run the certificate set is unchanged. Non-trivial: >= 2 successful runs or a failure after a success, with >= 1 pre-existing identity."
+const rule = "histories against one recording keyring agent (which lists its identities in insertion order, newest first, or sorted by comment: the protocol promises no order): 0..5 pre-existing identities (plain RSA / ECDSA / Ed25519 keys and foreign certificates whose comments are near-misses of the handler label: other case, truncation, '-' for '.', missing first letter, 'private-key', empty, non-ASCII; comments containing the exact handler name are not generated; two thirds of the foreign certificates carry a key identifier in the RA's own format - the regular handler's attribute combination for the same or another user, or hardware / firefighter / nonce / SSH-only ones -, as another deployment would issue), then 1..6 runs (for the login name alice or, two runs in five, for another account registered with the same key) - of the real handler (a third of the later ones through the handler object and forwarded connection an earlier run built, class handler-object-reused), or (a quarter) of a harness handler whose one agent key (the repository's AgentKey) carries 2..3 signing requests, with the key-pair algorithm (default, RSA-2048, rarely RSA-4096, P-256 / 384 / 521, Ed25519) and the private-key label drawn - each succeeding or failing {agent refuses the challenge / handler rejects, no key slot configured, CA error - for several requests: on the last one, after the earlier ones were signed -, the agent refusing to remove an identity of the previous generation, the agent refusing one certificate insertion, a CA that answers 300 ms after the caller's context ended (late success, or a failure after which the agent is looked at 700 ms later)}, the CA returning 1..3 (one run in 30: 8 / 16 / 20) certificates (validity window as requested, or without expiry, or valid until 2^63 s, or stamped by a CA clock 90 s ahead, or the first certificate of a reply valid for 5 minutes only; a sixth of the replies also carry a plain public key - the CA's own key line - in front of, between or behind the certificates) with 0..n+1 comments (present / empty / containing the handler name), validity from {1, 2, 3599, 3600, 43200, 2^31, 315360000} or random in 1 s..10 y, the handler's 'key_label' option left out or set (the default, another text, the handler name, a text with a space). Oracle after a successful run: the new private key and every returned certificate are listed, signing with each certificate yields a signature verifying under its key, every AddedKey the agent received has 0 < lifetime and lifetime >= validity (the configured one, and - when the CA stamps exactly the requested window - the remaining validity of the certificate it carries), the run allocated no more than 64 MiB + 1 MiB per returned certificate, certificates of the earlier generation are absent, the certificate set is exactly foreign + this generation, every pre-existing identity is present with identical blob and comment; after a failing run the certificate set is unchanged. Non-trivial: >= 2 successful runs or a failure after a success, with >= 1 pre-existing identity."
 
 func TestC03Provision(t *testing.T) {
 	vh.Run(t, vh.Spec[Case]{Property: "C03", Name: "TestC03Provision", Rule: rule, Gen: gen, Exec: exec})
